@@ -101,6 +101,24 @@ CHECKS = {
   level="Universal claim over outputs sampled through the program generator; the invariant is checked on each emitted file. Exploration.",
   note="'exactly the needed imports' = subset check + successful compilation (Go rejects unused imports).",
   design="5/C18"),
+ "C12": dict(
+  engine="E-gen + E-cli",
+  technique="exhaustive table enumeration (setting x {absent, bare, yes, no}^3 placements) with an absolute resolution oracle and a metamorphic canonical-spelling oracle; rapid sampling of the table through the real CLI; enumerated and rapid-generated invalid lines",
+  level="The precedence table is enumerated completely for 16 inheritable settings with observable probes (exhaustive: true for that part); invalid placements are enumerated per level, malformed boolean values are generated. Exploration beyond the table.",
+  note="Placements are applied to the raw setting lines of a loaded program through the verif hook; the CLI leg writes them into source text and -g.",
+  design="5/C12"),
+ "C14": dict(
+  engine="E-gen",
+  technique="exhaustive enumeration of signature shapes (roles x order x naming x results x consumer) decided per converter against a predicate written from docs/reference/signature.md; AST comparison of emitted signatures; rapid longer signatures",
+  level="Complete within 0-4 parameters / 0-3 results for methods and the stated smaller bounds for variables and custom functions; sampled beyond. The predicate is independent of goverter's parser.",
+  note="Generic / unexported / non-function references are not part of the enumeration (C13's fuzzers exercise them for crashes only).",
+  design="5/C14"),
+ "C19": dict(
+  engine="E-gen",
+  technique="property-based differential testing: rapid comment-layout generator with an independent extractor over the layout model, compared with comments.ParseDocs (public API)",
+  level="Generated layouts over all declaration kinds and comment styles; the two extractors must agree on which declarations are converters and on every setting line in order; non-attached comments must not matter. Exploration.",
+  note="The independent extractor never parses Go: it knows what it placed where.",
+  design="5/C19"),
 }
 
 def main():
